@@ -65,7 +65,8 @@ METHODS = ("patch", "post", "put", "get", "delete", "trace")
 OP_METHOD = {"C": "post", "R": "get", "D": "delete"}
 ROUTE_FILES = ("routes.py", "routes_b.py")
 APPS = ("rest_api", "api")
-SINGLE = ("Config", "Settings", "Record", "Model", "Loader")
+SINGLE = ("Config", "Settings", "Record", "Model", "Loader", "Conf", "Load")   # Conf/Config, Load/Loader: one route is a
+#                                                                                string prefix of the other
 TITLE_SNAKE = ("Audit_Log", "Job_Queue")
 CAMEL = ("UserProfile", "DataSet", "AuditLogEntry")
 COL_NAMES = ("name", "size", "label", "enabled", "ratio", "owner_id", "created_by", "kind", "dataset_name", "notes",
